@@ -72,6 +72,22 @@ def em_lit(e):
     return '(OUnsched %s)' % L.Z(e[1])
 
 
+def kind_lit(k, ch=()):
+    if k == 'D':
+        return '(KDir %s)' % L.zlist(ch)
+    return dict(A='KAbsent', F='KFile', X='KOdd')[k]
+
+
+def real_lit(case):
+    A = dict(copy='ACopy', link='ALink', move='AMove', transfer='ATransfer', tarball='ATarball')
+    out = []
+    for t in case['tasks']:
+        tr = L.lst(['(%s, %s)' % (L.Z(p), kind_lit(k)) for p, k in t['tree']])
+        sds = L.lst(['(mkSD %s %s %s)' % (A[d[0]], L.Z(d[1]), L.Z(d[2])) for d in t['sds']])
+        out.append('(%s, %s, %s)' % (L.Z(t['uid']), tr, sds))
+    return L.lst(out)
+
+
 def ret_lit(r):
     return 'ROk' if r == 'ok' else ('RStopped' if r == 'stopped' else 'RRaised')
 
@@ -96,15 +112,22 @@ class C05Pipe(Prop):
     model_targets = ['Pipeline/Oracle.vo', 'Exec/Oracle.vo']
     impl_timeout = 1500
     translators = ['states']
-    header = 'From RP Require Import Gen.StatesTables Pipeline.Model Pipeline.Oracle.'
+    header = 'From RP Require Import Gen.StatesTables Pipeline.Model Pipeline.Stage Pipeline.Oracle.'
     clauses = ['component_survives', 'no_task_lost', 'final_and_forwarded', 'bystander_failed', 'failure_recorded',
-               'cancel_requested', 'done_truthful', 'finals_agree', 'released_once']
+               'cancel_requested', 'done_truthful', 'finals_agree', 'released_once', 'staging_truthful',
+               'staged_data_present']
     corr_name = ('Pipeline.Model (work_cb / worker phases / run) vs the real BaseComponent.work_cb + advance + '
                  'the work routines of the nine pipeline stations, raptor Master._result_cb, and their chaining')
     rule = ('corpus; per station: random bulks of 1-6 tasks x fault placement (staging error, sandbox lookup error, '
             'no launcher, launch error, exit code, scheduler failure, cancel, timeout) x cancel lists x bulk-level '
             'faults, run through the REAL work_cb; work_cb around a synthetic worker; raptor _result_cb; whole '
             'pipeline runs (nine real components chained, random delivery schedules with cancel requests); '
+            'real staging: bulks of 1-3 tasks through ONE real stager (tmgr stage-in/-out _handle_task, agent '
+            'stage-in/-out _handle_task_staging) with the REAL StagingHelper (local backend) on a scratch tree -- '
+            'every action (COPY, LINK, MOVE, TRANSFER, TARBALL at tmgr stage-in) x source absent/file/directory x '
+            'target absent/file/directory/parent missing exhaustively for one directive, repeated directives, and '
+            'random lists of 1-4 directives over shared sources and targets; observed: failed or handed on, the '
+            'tree afterwards, and whether every enacted directive left a real copy / hard link / the moved source; '
             'non-trivial = a bulk of >= 2 tasks with a fault or cancellation, or a pipeline run of >= 2 tasks '
             'that drains with at least one fault')
     trusted = [
@@ -184,8 +207,68 @@ class C05Pipe(Prop):
                 evs.append(['d', c, 99, c in ('tsched', 'tin') and rng.random() < bfp])
         return dict(kind='pipe', tasks=tasks, events=evs, thr=rng.choice([1, 2, BIG]), hp=True)
 
+    # real staging: one bulk through one real stager with the real StagingHelper on a scratch tree
+    STAGE_ACTS = dict(tin=['transfer', 'transfer', 'tarball'], ain=['copy', 'link', 'move'],
+                      aout=['copy', 'link', 'move'], tout=['transfer'])
+
+    def real_task(self, rng, uid, stage, acts=None):
+        srcs = [1, 2, 3, 4]
+        tgts = [11, 12, 13, 51, 52]
+        tree = []
+        for p in srcs:
+            k = rng.choice(['F', 'F', 'F', 'A', 'D'])
+            if k != 'A':
+                tree.append([p, k])
+        for p in tgts[:3]:
+            k = rng.choice(['A', 'A', 'A', 'F', 'D'])
+            if k != 'A':
+                tree.append([p, k])
+        sds = []
+        for _ in range(rng.choice([1, 1, 2, 2, 3, 4])):
+            a = rng.choice(acts or self.STAGE_ACTS[stage])
+            t = rng.choice(tgts)
+            if a == 'tarball':
+                t = rng.choice([51, 52])          # a tarball member is named by its (absolute) target path
+            sp = rng.choice(srcs)
+            if a != 'link' and any(d[0] == 'link' and d[1] == sp and d[2] == t for d in sds):
+                # inode identity is not in the abstract tree: onto a hard link of the very same file rename() is a
+                # no-op that reports success and `cp` refuses ('are the same file'); the combination is left out
+                continue
+            sds.append([a, sp, t, rng.choice([0, 1, 2, 3])])
+        return dict(uid=uid, tree=tree, sds=sds)
+
+    def real_case(self, rng):
+        stage = rng.choice(['tin', 'ain', 'ain', 'aout', 'aout', 'tout'])
+        uids = rng.sample(range(1, 10), rng.choice([1, 2, 2, 3]))
+        return dict(kind='real', stage=stage, tasks=[self.real_task(rng, u, stage) for u in uids])
+
+    def real_exhaustive(self):
+        # every action x source kind x target kind (absent / file / directory / parent missing), one directive
+        u = 0
+        for stage in ('tin', 'ain', 'aout', 'tout'):
+            for a in sorted(set(self.STAGE_ACTS[stage])):
+                for sk in 'AFD':
+                    tasks = []
+                    for tk, tp in (('A', 11), ('F', 11), ('D', 11), ('A', 51)):
+                        if a == 'tarball' and tp != 51:
+                            continue
+                        tree = ([[1, sk]] if sk != 'A' else []) + ([[tp, tk]] if tk != 'A' else [])
+                        tasks.append(dict(uid=len(tasks) + 1, tree=tree, sds=[[a, 1, tp, 2]]))
+                    yield dict(kind='real', stage=stage, tasks=tasks)
+                    # twice the same source into the same place (a second move finds no source,
+                    # a second link finds the name taken, a second copy overwrites)
+                    yield dict(kind='real', stage=stage,
+                               tasks=[dict(uid=1, tree=[[1, sk]] if sk != 'A' else [],
+                                           sds=[[a, 1, 52, 2], [a, 1, 52, 2]]),
+                                      dict(uid=2, tree=([[1, sk]] if sk != 'A' else []) + [[12, 'D']],
+                                           sds=[[a, 1, 12, 2], [a, 1, 12, 2]])])
+
     def cases(self, rng, tier):
         quick = tier == 'quick'
+        for c in self.real_exhaustive():
+            yield c
+        for _ in range(120 if quick else 2500):
+            yield self.real_case(rng)
         for comp in COMPS:
             for _ in range(45 if quick else 700):
                 yield self.comp_case(rng, comp)
@@ -247,6 +330,11 @@ class C05Pipe(Prop):
             return '(c05_pipe_row %s %s %s %s %s)' % (
                 params(case), self._tasks(case, 'tsched'), L.lst([ev_lit(e) for e in case['events']]), steps, left)
         ems = L.lst([em_lit(e) for e in obs['em']])
+        if k == 'real':
+            per = L.lst(['(%s, %s, %s)' % (L.Z(o['uid']), L.lst(['(%s, %s)' % (L.Z(p), kind_lit(kd, ch))
+                                                                   for p, kd, ch in o['tree']]), b(o['post_ok']))
+                         for o in obs['per']])
+            return '(c05_real_row %s %s %s %s %s)' % (CNAME[case['stage']], real_lit(case), ret_lit(obs['ret']), ems, per)
         if k == 'comp':
             return '(c05_comp_row %s %s %s %s %s %s %s %s %s)' % (
                 CNAME[case['comp']], params(case), b(case['bf']), L.zlist(case['cancel']),
@@ -260,6 +348,9 @@ class C05Pipe(Prop):
 
     def model_show(self, case):
         k = case['kind']
+        if k == 'real':
+            return ('map (fun rt : realtask => let \'(u, tr, l) := rt in (u, stage_ok %s tr l, stage_partial %s tr l)) %s'
+                    % (CNAME[case['stage']], CNAME[case['stage']], real_lit(case)))
         if k == 'pipe':
             return 'map (map view) (fst (run_steps %s (init %s) %s))' % (
                 params(case), self._tasks(case, 'tsched'), L.lst([ev_lit(e) for e in case['events']]))
@@ -274,6 +365,9 @@ class C05Pipe(Prop):
 
     # ------------------------------------------------------------------ bookkeeping
     def _faulty(self, case):
+        if case['kind'] == 'real':
+            return any(k != 'F' for t in case['tasks'] for _, k in t['tree']) or \
+                any(len([1 for p, _ in t['tree'] if p == d[1]]) == 0 for t in case['tasks'] for d in t['sds'])
         for s in case['tasks']:
             fa = s['fa']
             if any(fa[k] for k in ('assign', 'tin', 'ain', 'stdio', 'aout', 'tout')) or fa['sched'] != 'start' \
@@ -294,6 +388,8 @@ class C05Pipe(Prop):
             at = sorted({e[1] for e in case['events'] if e[0] == 'd' and e[3]})
             site = 'tsched' if 'tsched' in at else '+'.join(at)
             return '%s:pipe:%s' % (clause, 'bulk_fault@' + site if at else 'per_task_faults')
+        if k == 'real':
+            return '%s:%s:real_staging' % (clause, case['stage'])
         site = case['comp'] if k == 'comp' else k
         return '%s:%s:%s' % (clause, site, 'bulk_fault' if case.get('bf') else 'per_task_faults')
 
@@ -312,6 +408,14 @@ class C05Pipe(Prop):
         else:
             for i in range(len(case.get('cancel', []))):
                 yield dict(case, cancel=case['cancel'][:i] + case['cancel'][i + 1:])
+        if case['kind'] == 'real':
+            for i, t in enumerate(ts):
+                for j in range(len(t['sds'])):
+                    if len(t['sds']) > 1:
+                        yield dict(case, tasks=ts[:i] + [dict(t, sds=t['sds'][:j] + t['sds'][j + 1:])] + ts[i + 1:])
+                for j in range(len(t['tree'])):
+                    yield dict(case, tasks=ts[:i] + [dict(t, tree=t['tree'][:j] + t['tree'][j + 1:])] + ts[i + 1:])
+            return
         # drop faults and staging needs one at a time
         for i, s in enumerate(ts):
             for key in ('assign', 'tin', 'ain', 'stdio', 'aout', 'tout'):
